@@ -1,46 +1,67 @@
 /* Engine K harness for C19 (time watchdogs): model timer, signal injection, event sequence.
    Linked with the C translation of the real Watchdog code (kernels/c19_watchdog.cc). */
 #include "ir2c_rt.h"
+#ifndef NATIVE_DRIVER
 #include <assert.h>
+#endif
 #ifndef NW
 #define NW 2          /* simultaneously existing watchdogs */
 #endif
 #ifndef NEV
 #define NEV 4         /* events of the history */
 #endif
-#ifndef MAXCS
-#define MAXCS 300     /* delays in centiseconds: 1..MAXCS */
+#ifndef MAXDELAY_S
+#define MAXDELAY_S 2  /* delays: 1 centisecond .. MAXDELAY_S seconds + 99 centiseconds */
 #endif
-#ifndef MAXADV
-#define MAXADV 2000000UL   /* largest single advance of the clock, microseconds */
+#ifndef MAXADV_S
+#define MAXADV_S 1    /* largest advance of the clock between two instrumented instructions: MAXADV_S s + 999999 us */
 #endif
 #ifndef MAXSIG
 #define MAXSIG 3      /* signal deliveries per history */
 #endif
+#ifdef NATIVE_DRIVER
+extern unsigned rt_kinds[], rt_args[], rt_nev;
+#endif
 int ir2c_threw;
+/* every nondeterministic draw is logged, so that a counterexample trace can be replayed natively */
+static long tl[1024]; static unsigned tn;
+#define LOG_(v) (tl[tn < 1023 ? tn++ : 1023] = (long) (v))
 unsigned long nondet_ulong(void); unsigned int nondet_uint(void); long nondet_long(void);
+static long draw_long(void) { long v = nondet_long(); LOG_(v); return v; }
+static unsigned long draw_ulong(void) { unsigned long v = nondet_ulong(); LOG_(v); return v; }
+static unsigned int draw_uint(void) { unsigned int v = nondet_uint(); LOG_(v); return v; }
 void ir2c_init_globals(void);
 void k_static_init(void); void k_wd_initialize(void); char* k_wd_create(unsigned long csecs, unsigned int idx); void k_wd_destroy(char* w); void k_wd_signal(void);
 unsigned int k_wd_clock_running(void); unsigned int k_wd_pending_empty(void);
 
 struct itv { long is, ius, vs, vus; };
-static unsigned long now;                 /* timer time, microseconds */
-static int armed; static unsigned long due;
+/* model time: seconds and microseconds kept apart (the representation of the code under test), so that the
+   verification conditions contain no division */
+typedef struct { long s, us; } T;
+static T t_add(T a, T b) { T r; r.s = a.s + b.s; r.us = a.us + b.us; if (r.us >= 1000000L) { r.us -= 1000000L; r.s += 1; } return r; }
+static T t_sub(T a, T b) { T r; r.s = a.s - b.s; r.us = a.us - b.us; if (r.us < 0) { r.us += 1000000L; r.s -= 1; } return r; }   /* a >= b */
+static int t_le(T a, T b) { return a.s < b.s || (a.s == b.s && a.us <= b.us); }
+static int t_lt(T a, T b) { return a.s < b.s || (a.s == b.s && a.us < b.us); }
+static T nondet_T(long max_s) { T d; d.s = draw_long(); d.us = draw_long(); __CPROVER_assume(d.s >= 0 && d.s <= max_s && d.us >= 0 && d.us < 1000000L); return d; }
+static T now;                             /* timer time */
+static int armed; static T due;
 static int in_handler, signals;
 static int started[NW], returned[NW], acted[NW], dead[NW], dying[NW];
-static unsigned long t_entry[NW], t_return[NW], delay_us[NW], t_act[NW];
-static unsigned long last_quiet;
+static T t_entry[NW], t_return[NW], delay[NW], t_act[NW];
+static T last_quiet;
+static const T quantum = { 0, 10000L };   /* Watchdog::reschedule_time: one centisecond */
 
 unsigned int verif_setitimer(unsigned int which, char* value, char* old) {
   struct itv* v = (struct itv*) value; (void) which; (void) old;
-  unsigned long rem = (unsigned long) v->vs * 1000000UL + (unsigned long) v->vus;
-  if (rem == 0) armed = 0; else { armed = 1; due = now + rem; }
+  if (v->vs == 0 && v->vus == 0) armed = 0;
+  else { T r; r.s = v->vs; r.us = v->vus; __CPROVER_assert(r.s >= 0 && r.us >= 0 && r.us < 1000000L, "setitimer is given a valid time"); armed = 1; due = t_add(now, r); }
   return 0;
 }
 unsigned int verif_getitimer(unsigned int which, char* value) {
   struct itv* v = (struct itv*) value; (void) which;
-  unsigned long rem = armed ? due - now : 0;
-  v->is = 0; v->ius = 0; v->vs = (long) (rem / 1000000UL); v->vus = (long) (rem % 1000000UL);
+  T rem; rem.s = 0; rem.us = 0;
+  if (armed) rem = t_sub(due, now);
+  v->is = 0; v->ius = 0; v->vs = rem.s; v->vus = rem.us;
   return 0;
 }
 unsigned int verif_sigaction(unsigned int s, char* a, char* o) { (void) s; (void) a; (void) o; return 0; }
@@ -51,60 +72,77 @@ void verif_act(unsigned int idx) {
   assert(idx < NW && started[idx]);
   assert(!dead[idx]);                                   /* never after its destruction has returned */
   assert(!acted[idx]);                                  /* at most once */
-  assert(now >= t_entry[idx] + delay_us[idx]);          /* never early */
+  assert(t_le(t_add(t_entry[idx], delay[idx]), now));   /* never early */
   for (unsigned j = 0; j < NW; ++j)                     /* deadline order */
     if (j != idx && returned[j] && !acted[j] && !dead[j] && !dying[j])
-      assert(!(t_return[j] + delay_us[j] < t_entry[idx] + delay_us[idx]));
+      assert(!t_lt(t_add(t_return[j], delay[j]), t_add(t_entry[idx], delay[idx])));
   acted[idx] = 1; t_act[idx] = now;
 }
 /* the clock advances by d; the one-shot timer fires the moment it is due */
-static void tick(unsigned long d) {
+static void tick(T d) {
   if (in_handler) return;
-  if (armed && now + d >= due) {
+  T then = t_add(now, d);
+  if (armed && t_le(due, then)) {
     if (signals >= MAXSIG) { __CPROVER_assume(0); }
     ++signals; now = due; armed = 0; in_handler = 1; k_wd_signal(); in_handler = 0;
   }
-  else now += d;
+  else now = then;
 }
 /* called after every store / call of the instrumented bookkeeping functions */
 void verif_maybe_signal(void) {
-  unsigned long d = nondet_ulong(); __CPROVER_assume(d <= MAXADV);
-  tick(d);
+  if (in_handler) return;
+  tick(nondet_T(MAXADV_S));
 }
 /* between API calls: no alive watchdog may be left without a wake-up that comes in time */
 static void quiescent(void) {
   for (unsigned i = 0; i < NW; ++i)
     if (returned[i] && !dead[i] && !acted[i]) {
       assert(armed);                                                       /* no lost wake-up */
-      unsigned long latest = t_return[i] + delay_us[i];
-      if (latest < last_quiet) latest = last_quiet;
-      assert(due <= latest + 10000UL);                                     /* prompt: at most one reschedule quantum late */
+      T latest = t_add(t_return[i], delay[i]);
+      if (t_lt(latest, last_quiet)) latest = last_quiet;
+      assert(t_le(due, t_add(latest, quantum)));                           /* prompt: at most one reschedule quantum late */
     }
 }
 void harness_watchdog(void) {
   char* w[NW];
   ir2c_init_globals(); k_static_init(); k_wd_initialize();
   unsigned created = 0;
+#ifdef NATIVE_DRIVER
+  for (unsigned e = 0; e < rt_nev; ++e) {
+#else
   for (unsigned e = 0; e < NEV; ++e) {
-    unsigned kind = nondet_uint(); __CPROVER_assume(kind < 3);
+#endif
+#if defined(NATIVE_DRIVER)
+    unsigned kind = rt_kinds[e];
+#elif defined(KINDS)
+    static const unsigned kinds_[NEV] = KINDS; unsigned kind = kinds_[e];     /* the shape of the history is a parameter of the run */
+#else
+    unsigned kind = draw_uint(); __CPROVER_assume(kind < 3);
+#endif
     if (kind == 0 && created < NW) {
-      long cs = nondet_long(); __CPROVER_assume(cs >= 1 && cs <= MAXCS);
+      long ds = draw_long(), dc = draw_long(); __CPROVER_assume(ds >= 0 && ds <= MAXDELAY_S && dc >= 0 && dc < 100 && (ds > 0 || dc > 0));
+      long cs = ds * 100 + dc;                       /* the delay handed to the constructor, in centiseconds */
       unsigned i = created++;
-      delay_us[i] = (unsigned long) cs * 10000UL; t_entry[i] = now; started[i] = 1;
+      delay[i].s = ds; delay[i].us = dc * 10000L; t_entry[i] = now; started[i] = 1;
       w[i] = k_wd_create((unsigned long) cs, i);
       assert(!ir2c_threw);
       t_return[i] = now; returned[i] = 1; last_quiet = now;
     }
     else if (kind == 1) {
-      unsigned i = nondet_uint(); __CPROVER_assume(i < created && !dead[i] && !dying[i]);
+#if defined(NATIVE_DRIVER)
+      unsigned i = rt_args[e]; __CPROVER_assume(i < created && !dead[i] && !dying[i]);
+#elif defined(KINDS)
+      static const unsigned args_[NEV] = ARGS; unsigned i = args_[e]; __CPROVER_assume(i < created && !dead[i] && !dying[i]);
+#else
+      unsigned i = draw_uint(); __CPROVER_assume(i < created && !dead[i] && !dying[i]);
+#endif
       dying[i] = 1;
       k_wd_destroy(w[i]);
       assert(!ir2c_threw);
       dead[i] = 1; last_quiet = now;
     }
     else {
-      unsigned long d = nondet_ulong(); __CPROVER_assume(d <= 4 * MAXADV);
-      tick(d); last_quiet = now;
+      tick(nondet_T(2 * MAXADV_S + 1)); last_quiet = now;
     }
     quiescent();
   }
